@@ -101,6 +101,87 @@ def content_of(ty):
 SER_IMPL = re.compile(r"<impl serde_core::ser::Serialize for (.*)>::serialize$")
 
 
+def _literal_table(w, fn, args, lit_of=None):
+    """literal -> variant, read off the successful paths of a function that matches a string against literals and builds enum variants."""
+    dex = D.Dex(w.lookup, adt_discr=w.adt_discr, inline=lambda n: "{closure" in n, ctors=w.ctors)
+    table, odd = {}, []
+    for p in dex.paths(fn, args):
+        if p.kind != "ret":
+            continue
+        r = D.show(p.ret)
+        m = re.match(r"^(?:Result::Ok\()?(?:\w+::)*(\w+)::(\w+)\b", r)
+        if not m or r.startswith("Result::Err"):
+            continue
+        lits = [re.search(r"=='([^']*)'$", D.show_atom(a)) for a, t in p.conds if a[0] == "eq" and t]
+        lits = [x.group(1) for x in lits if x]
+        if not lits:
+            continue            # fallback arm (custom value)
+        if table.get(lits[-1], m.group(2)) != m.group(2):
+            odd.append((lits[-1], table[lits[-1]], m.group(2)))
+        table[lits[-1]] = m.group(2)
+    return table, odd
+
+
+def _variant_strings(w, fn):
+    """variant -> literal for an accessor `fn(&self) -> &str` that matches on self."""
+    dex = D.Dex(w.lookup, adt_discr=w.adt_discr, inline=lambda n: "{closure" in n, ctors=w.ctors)
+    out = {}
+    for p in dex.paths(fn, [D.sym("self")]):
+        v = [a[2] for a, t in p.conds if a[0] == "variant" and t and D.show(a[1]) == "self"]
+        if v and p.kind == "ret" and D.is_const(p.ret) and isinstance(p.ret[1], str):
+            out[v[0]] = p.ret[1]
+    return out
+
+
+def _snake(name):
+    return re.sub(r"(?<!^)(?=[A-Z])", "_", name).lower()
+
+
+def string_dispatch_rule(ctx, w, rule):
+    """Hand-written string dispatch tables that must agree with the derived / sibling ones:
+    JoinRule: Serialize is derived (`tag = "join_rule", rename_all = "snake_case"`), Deserialize is a hand-written match on the tag - every arm's
+    literal must be the snake_case name of the variant it builds, and every variant must have an arm (else `knock_restricted` comes back as
+    `restricted`). MessageType: `new(msgtype, ..)`, Deserialize and `msgtype()` are three tables over the same literals - they must agree."""
+    ctx.rule(rule, "JoinRule::deserialize: literal == snake_case(variant) for every arm, all variants covered, and == as_str(); "
+                   "MessageType::new / Deserialize / msgtype(): the same literal <-> variant table")
+    # ---- JoinRule
+    kj = [k for k in w.fn_index if re.fullmatch(r"<ruma_events::room::join_rules::JoinRule as serde_core::de::Deserialize<'de>>::deserialize", k)]
+    if len(kj) == 1:
+        tj, odd = _literal_table(w, w.fn(kj[0]), [D.sym("de")])
+        adt = w.adts.get("ruma_events::room::join_rules::JoinRule")
+        variants = {v["name"] for v in adt["variants"]} - {"_Custom"} if adt else set()
+        bad = {l: v for l, v in tj.items() if _snake(v) != l}
+        missing = sorted(variants - set(tj.values()))
+        ctx.floor("arms of JoinRule::deserialize", len(tj), 5)
+        ctx.check(not bad and not missing and not odd, rule, f"{rule}:JoinRule:deserialize", w.where(w.fn(kj[0])),
+                  bad_msg=f"JoinRule's hand-written Deserialize disagrees with its derived Serialize (snake_case of the variant): arms {bad}, variants never built {missing}: the value "
+                          f"changes on a typed round trip (e.g. `knock_restricted` is read into another variant and written back under that variant's name)")
+        fa = [k for k in w.fn_index if k == "ruma_events::room::join_rules::JoinRule::as_str"]
+        if fa:
+            vs = _variant_strings(w, w.fn(fa[0]))
+            badv = {v: l for v, l in vs.items() if tj.get(l) != v}
+            ctx.check(bool(vs) and not badv, rule, f"{rule}:JoinRule:as_str", w.where(w.fn(fa[0])), bad_msg=f"JoinRule::as_str disagrees with Deserialize: {badv}")
+    else:
+        ctx.missing(rule, f"{rule}:JoinRule:deserialize", "JoinRule's Deserialize impl not found")
+    # ---- MessageType
+    MT = "ruma_events::room::message::MessageType"
+    fnew = [k for k in w.fn_index if k == MT + "::new"]
+    fde = [k for k in w.fn_index if re.fullmatch(r"ruma_events::room::message::content_serde::<impl serde_core::de::Deserialize<'de> for " + re.escape(MT) + r">::deserialize", k)]
+    fms = [k for k in w.fn_index if k == MT + "::msgtype"]
+    if fnew and fde and fms:
+        tn, odd1 = _literal_table(w, w.fn(fnew[0]), [D.sym("msgtype"), D.sym("body"), D.sym("data")])
+        td, odd2 = _literal_table(w, w.fn(fde[0]), [D.sym("de")])
+        vs = _variant_strings(w, w.fn(fms[0]))
+        inv = {l: v for v, l in vs.items()}
+        ctx.floor("arms of MessageType::new", len(tn), 8)
+        diff = {l: (tn.get(l), td.get(l), inv.get(l)) for l in sorted(set(tn) | set(td) | set(inv)) if len({tn.get(l), td.get(l), inv.get(l)}) != 1}
+        ctx.check(not diff and not odd1 and not odd2, rule, f"{rule}:MessageType", w.where(w.fn(fnew[0])),
+                  bad_msg=f"MessageType::new / Deserialize / msgtype() disagree on (literal: new, deserialize, msgtype()) {diff}: the string given to the constructor is not the one "
+                          f"msgtype() and serialization return, or the payload is parsed as another message type")
+    else:
+        ctx.missing(rule, f"{rule}:MessageType", "MessageType::new / Deserialize / msgtype not found")
+
+
 def custom_msgtype_rule(ctx, w):
     """An unknown `msgtype` is kept as MessageType::_Custom, whose payload collects EVERY other key of the JSON object it is parsed from in a
     flattened map. RoomMessageEventContent (and ..WithoutRelation) parse the message type from the whole content object and serialize
@@ -436,6 +517,7 @@ def run(ctx):
     ctx.floor("derived types with skippable fields", len(skip), 50)
     unique_keys_rule(ctx, w)
     custom_msgtype_rule(ctx, w)
+    string_dispatch_rule(ctx, w, "C18.string-dispatch")
     # the two hand-written deserializers of m.room.redaction (full / sync) must accept the same events: both `redacts` locations are valid
     from . import C17 as _C17
     _C17.redacts_fallback_rule(ctx, w, "C18.redaction-siblings")
